@@ -14,7 +14,8 @@ ANCHORS = [("deap/gp.py", ["PrimitiveTree.__str__", "PrimitiveTree.from_string",
                            "Terminal.__init__", "Terminal.format", "PrimitiveSetTyped.renameArguments",
                            "PrimitiveSetTyped.addTerminal", "PrimitiveSetTyped.addADF", "compile", "compileADF"])]
 LEVEL = "partial"
-RULE = ("every primitive set (untyped with 0/1/2 arguments incl. renamed arguments, named terminals, negative constants, "
+RULE = ("every primitive set (untyped with 0/1/2 arguments incl. renamed arguments, named terminals (also as the single node "
+        "of a zero-argument set), negative constants, anonymous constants equal by == but of different type / sign of zero, "
         "ephemerals; strongly typed int/bool/float with a subclass pair and dyadic float constants; a two-level ADF family) x "
         "trees of height 0..6 from genFull/genGrow/genHalfAndHalf and from chains of the variation operators; for each tree: "
         "str vs strBuilder vs render, the source handed to eval vs compileSrc, re.split tokens vs tokens, from_string(str(t)) vs "
@@ -106,6 +107,15 @@ def e_bool():
     return random.random() < 0.5
 
 
+def e_small():
+    return random.randint(-2, 2)
+
+
+def e_fint():
+    # floats that are == to small ints / to each other with another sign of zero
+    return random.choice([1.0, -2.0, 0.0, -0.0, 2.0, 0.5, -1.0])
+
+
 _uid = [0]
 
 
@@ -179,7 +189,7 @@ def val_tok(v):
         return "i%d" % v
     if isinstance(v, float):
         return "f%d" % struct.unpack("<Q", struct.pack("<d", v))[0]
-    raise ValueError("value %r" % (v,))
+    return "?" + enc(repr(v))       # not a value of the modelled signature (the oracle reports it)
 
 
 def untyped(key, nargs, prims, consts, named=(), eph=True, rename=None):
@@ -209,13 +219,27 @@ def b_u2x():
                               (f_sub, 2, "max"), (f_ite, 3, "if_then_else")], [1, -1], [("three", 30)])
 
 
+def b_u2m():
+    # anonymous constants that are equal by == but differ in type / sign of zero: 1 vs 1.0 vs True, 0.0 vs -0.0
+    p = gp.PrimitiveSet("MAIN", 2)
+    for f, ar, name in [(f_add, 2, "add"), (f_sub, 2, "sub"), (f_neg, 1, "neg"), (f_max2, 2, "max"),
+                        (f_ite, 3, "if_then_else"), (f_lt, 2, "lt")]:
+        p.addPrimitive(f, ar, name=name)
+    p.addEphemeralConstant(uniq("MI"), e_small)
+    p.addEphemeralConstant(uniq("MF"), e_fint)
+    p.addEphemeralConstant(uniq("MB"), e_bool)
+    return PS("u2m", p)
+
+
 def b_u2r():
     return untyped("u2r", 2, [(f_add, 2, "add"), (f_mul, 2, "mul"), (f_neg, 1, "neg"), (f_ite, 3, "ite")], [0, -2],
                    [("ten", 10)], rename={"ARG0": "x", "ARG1": "y"})
 
 
 def b_u0():
-    return untyped("u0", 0, [(f_add, 2, "add"), (f_mul, 2, "mul"), (f_neg, 1, "neg"), (f_max3, 3, "max3")], [2, -3])
+    # zero arguments: compile returns a value; `seven` is a NAMED terminal (its .value is the name)
+    return untyped("u0", 0, [(f_add, 2, "add"), (f_mul, 2, "mul"), (f_neg, 1, "neg"), (f_max3, 3, "max3")], [2, -3],
+                   [("seven", 7)])
 
 
 def b_u1():
@@ -256,7 +280,9 @@ def typed(key, ins, ret, rename=None):
 BUILDERS = {"u2": b_u2, "u2r": b_u2r, "u0": b_u0, "u1": b_u1,
             "ti": lambda: typed("ti", [int, float], int),
             "tf": lambda: typed("tf", [float, int, bool], float, rename={"ARG0": "a", "ARG2": "flag"}),
-            "tb": lambda: typed("tb", [], bool)}
+            "tb": lambda: typed("tb", [], bool),
+            "tf0": lambda: typed("tf0", [], float),          # zero-argument typed set whose root may be the named `q`
+            "u2m": b_u2m}
 PSNAMES = sorted(BUILDERS)
 BUILDERS["u2x"] = b_u2x
 _cache = {}
@@ -391,7 +417,12 @@ def tuples_tok(tuples):
 
 
 def same_value(a, b):
-    return type(a) is type(b) and (a == b or (a != a and b != b))
+    """same Python type and same value; floats by bit pattern (0.0 vs -0.0 differ, NaN equals itself)"""
+    if type(a) is not type(b):
+        return False
+    if isinstance(a, float):
+        return struct.pack("<d", a) == struct.pack("<d", b)
+    return a == b
 
 
 def capture_compile(tree, pset):
@@ -555,7 +586,14 @@ def evaluate(d):
             return interp(list(A[level]), ctx, dict(zip(ps.arguments, args)))
         fA = gp.compileADF(A, psets)
         tuples = [(v,) for v in [-2, -1, 0, 1, 2, 3] + [rng.randint(-9, 9) for _ in range(3)]]
-        gp.compileADF(B, psets)
+        fB = gp.compileADF(B, psets)
+        parts = []
+        for trees in (A, B):
+            for ps, t in zip(fam, trees):
+                parts.append("%s %s %s %s %s" % (enc(ps.pset.name), ps.args_tok(), ps.funs_tok(), ps.vars_tok(),
+                                                 ps.nodes_tok(t)))
+        line = "C12 adfs %s %s" % (tuples_tok(tuples), " ".join(parts))
+        exp = ",".join(val_tok(fA(*t)) for t in tuples) + "|" + ",".join(val_tok(fB(*t)) for t in tuples)
         orc = None
         for t in tuples:
             w, v = fA(*t), direct(0, t)
@@ -563,7 +601,7 @@ def evaluate(d):
                 orc = ("compiled callable of [%s] returns %r at %r after another individual [%s] was compiled; the value "
                        "of its trees is %r" % (" | ".join(map(str, A)), w, t, " | ".join(map(str, B)), v))
                 break
-        return Case(d, [], [], orc, tag="adf-late", nontrivial=True)
+        return Case(d, [line], [exp], orc, tag="adf-late", nontrivial=True)
 
     if k == "twin":
         # the same printed tree compiled against two distinct sets with the same name and vocabulary but different
